@@ -304,6 +304,22 @@ func cmdCheck(args []string) {
 				for i, v := range g.vs {
 					rs = append(rs, reproduced(&nr.Results[i], v.Label))
 				}
+				// a witness that does not reproduce may have alternatives with other discrete choices
+				for i, v := range g.vs {
+					if rs[i] || len(v.Alt) == 0 {
+						continue
+					}
+					nr2 := replayNative(l, *repo, d, violationCases(v.Alt), false)
+					if nr2.Err != "" {
+						continue
+					}
+					for k, a := range v.Alt {
+						if reproduced(&nr2.Results[k], a.Label) {
+							v.Values, rs[i] = a.Values, true
+							break
+						}
+					}
+				}
 			}
 			for i, v := range g.vs {
 				if !rs[i] {
